@@ -373,6 +373,8 @@ def feature_problems(rd, fams, seed, tier):
             ent += gen_features.unify_family()
         elif fam == 'stricttie':
             ent += gen_features.strict_tie_family()
+        elif fam == 'coefsign':
+            ent += gen_features.coef_sign_family()
         elif fam == 'deepchain':
             ent += gen_features.deep_chain_family()
         elif fam == 'enummember':
